@@ -43,12 +43,35 @@ Theorem C10_convert_there_and_back : forall v u w, ~ qval u == 0 -> ~ qval w == 
 Proof. exact convert_there_and_back. Qed.
 Print Assumptions C10_convert_there_and_back.
 
-(* parsing ends with a tree or the units parse error (Hang = fuel exhausted:
-   excluded by the correspondence, see DESIGN; no internal exception) *)
+(* parsing ends with a tree or the units parse error - no internal exception *)
 Theorem C10_parse_classified : forall xs xa text,
   parse_class (parse xs xa text).
 Proof. exact parse_classified. Qed.
 Print Assumptions C10_parse_classified.
+
+(* ... and it never runs out of fuel: for EVERY text the parser ends with a tree
+   or the units parse error (progress of every factor; fuel = tokens + 2) *)
+Theorem C10_parse_total : forall xs xa text,
+  match parse xs xa text with UOk _ | URaise UnitsParse => True | URaise _ => False end.
+Proof. exact parse_total. Qed.
+Print Assumptions C10_parse_total.
+
+(* the whole evaluator on every text: a value, the units parse error, division
+   by zero, exponentiation by a quantity, or a host floating-point power
+   outside the oracle table - never out of fuel, never another exception *)
+Theorem C10_eval_text_total : forall rpow xs xa ps db text,
+  match eval_text rpow xs xa ps db text with
+  | UOk _ | URaise UnitsParse | URaise ZeroDiv | URaise TypeErr | URaise NoOracle => True
+  | URaise _ => False
+  end.
+Proof.
+  intros rpow xs xa ps db text. unfold eval_text.
+  pose proof (parse_total xs xa text) as P.
+  destruct (parse xs xa text) as [t|e]; [|destruct e; simpl in *; auto].
+  simpl. pose proof (eval_classified rpow ps db t) as E. unfold eval_class in E.
+  destruct (eval rpow ps db t) as [v|e]; [exact I|destruct e; auto].
+Qed.
+Print Assumptions C10_eval_text_total.
 
 (* evaluation ends with a value, the parse error (unknown name), one of the
    two arithmetic guards (division by zero, fractional power of a negative), or
